@@ -3,6 +3,9 @@
    the padding frame of handle_end_of_log_condition, BufferClaim commit / abort, the fragment loop,
    and the vectored ("bulk") buffer walks.
 
+   The reserved-value supplier `rv` is applied to (term offset, frame length, payload bytes of the frame as they are in
+   the term buffer when the source calls it: after the body copy, before the length is committed).
+
    get_and_add_raw_tail is modelled with its sequential semantics (nobody else moves the tail between
    the publication's read of the tail and the appender's fetch-add); interleavings belong to C02.
 
@@ -125,7 +128,7 @@ Definition tail_claim (l : log) (idx required active_term_id : Z) : outcome clai
   if tid =? active_term_id then Ok (mkClaimed l1 term_offset tid) else Err IllegalState.
 
 (* the fragment loop of append_fragmented_message: one frame per iteration *)
-Fixpoint frag_loop (fuel : nat) (l : log) (rv : Z -> Z -> Z) (tid mpl length : Z) (msg : list Z)
+Fixpoint frag_loop (fuel : nat) (l : log) (rv : Z -> Z -> list Z -> Z) (tid mpl length : Z) (msg : list Z)
                    (flags remaining frame_offset : Z) : list entry :=
   match fuel with
   | O => []
@@ -135,7 +138,7 @@ Fixpoint frag_loop (fuel : nat) (l : log) (rv : Z -> Z -> Z) (tid mpl length : Z
       let alen := align flen FA in
       let body := slice msg (length - remaining) btw in
       let flags' := if remaining <=? mpl then Z.lor flags F_END else flags in
-      let fr := data_frame l frame_offset flen tid flags' T_DATA (rv frame_offset flen) body in
+      let fr := data_frame l frame_offset flen tid flags' T_DATA (rv frame_offset flen body) body in
       let remaining' := remaining - btw in
       Committed fr :: (if remaining' <=? 0 then [] else frag_loop f l rv tid mpl length msg 0 remaining' (frame_offset + alen))
   end.
@@ -162,7 +165,7 @@ Definition ta_claim (m : mode) (l : log) (idx len active_term_id : Z) : outcome 
     else Panic.
 
 (* TermAppender::append_unfragmented_message (message = the whole source buffer) *)
-Definition ta_append_unfragmented (m : mode) (rv : Z -> Z -> Z) (l : log) (idx : Z) (msg : list Z) (active_term_id : Z)
+Definition ta_append_unfragmented (m : mode) (rv : Z -> Z -> list Z -> Z) (l : log) (idx : Z) (msg : list Z) (active_term_id : Z)
   : outcome appended :=
   let len := zlen msg in
   '(fl, al) <- unfrag_lengths m len ;;
@@ -172,11 +175,11 @@ Definition ta_append_unfragmented (m : mode) (rv : Z -> Z -> Z) (l : log) (idx :
   else
     let off := c_off c in
     let l1 := c_log c in
-    Ok (mkAppended (set_part l1 idx (term_put (part l1 idx) off [Committed (data_frame l1 off fl (c_tid c) F_UNFRAG T_DATA (rv off fl) msg)]))
+    Ok (mkAppended (set_part l1 idx (term_put (part l1 idx) off [Committed (data_frame l1 off fl (c_tid c) F_UNFRAG T_DATA (rv off fl msg) msg)]))
                    (wrap32 resulting) None).
 
 (* TermAppender::append_fragmented_message *)
-Definition ta_append_fragmented (m : mode) (rv : Z -> Z -> Z) (l : log) (idx : Z) (msg : list Z) (mpl active_term_id : Z)
+Definition ta_append_fragmented (m : mode) (rv : Z -> Z -> list Z -> Z) (l : log) (idx : Z) (msg : list Z) (mpl active_term_id : Z)
   : outcome appended :=
   let len := zlen msg in
   required <- frag_required m len mpl ;;
@@ -269,7 +272,7 @@ Definition copies_ok (cs : list copyop) : bool := forallb (fun c => (0 <=? cp_n 
 
 (* repaired outer loop: the buffer iterator and the current buffer live outside the fragment loop.
    Result: the frames written and, for the record, every copy_from call issued (in order) *)
-Fixpoint bulk_frag_loop (fuel : nat) (l : log) (rv : Z -> Z -> Z) (tid mpl : Z)
+Fixpoint bulk_frag_loop (fuel : nat) (l : log) (rv : Z -> Z -> list Z -> Z) (tid mpl : Z)
                         (flags remaining frame_offset : Z) (cu : cursor) : outcome (list entry * list copyop) :=
   match fuel with
   | O => Ok ([], [])
@@ -281,7 +284,7 @@ Fixpoint bulk_frag_loop (fuel : nat) (l : log) (rv : Z -> Z -> Z) (tid mpl : Z)
       match tile (frame_offset + HDR) cs with
       | Some body =>
           let flags' := if remaining <=? mpl then Z.lor flags F_END else flags in
-          let fr := data_frame l frame_offset flen tid flags' T_DATA (rv frame_offset flen) body in
+          let fr := data_frame l frame_offset flen tid flags' T_DATA (rv frame_offset flen body) body in
           let remaining' := remaining - btw in
           if remaining' <=? 0 then Ok ([Committed fr], cs)
           else r <- bulk_frag_loop f l rv tid mpl 0 remaining' (frame_offset + alen) cu' ;; Ok (Committed fr :: fst r, cs ++ snd r)
@@ -307,7 +310,7 @@ Definition bulk_fragment_copies_asis (bufs : list (list Z)) (btw frame_offset cb
   end.
 
 (* TermAppender::append_unfragmented_message_bulk (repaired) *)
-Definition ta_append_unfragmented_bulk (m : mode) (rv : Z -> Z -> Z) (l : log) (idx : Z) (bufs : list (list Z)) (len : Z)
+Definition ta_append_unfragmented_bulk (m : mode) (rv : Z -> Z -> list Z -> Z) (l : log) (idx : Z) (bufs : list (list Z)) (len : Z)
                                        (active_term_id : Z) : outcome appended :=
   '(fl, al) <- unfrag_lengths m len ;;
   c <- tail_claim l idx al active_term_id ;;
@@ -320,14 +323,14 @@ Definition ta_append_unfragmented_bulk (m : mode) (rv : Z -> Z -> Z) (l : log) (
     match tile (off + HDR) cs with
     | Some body =>
         if zlen body =? len then
-          Ok (mkAppended (set_part l1 idx (term_put (part l1 idx) off [Committed (data_frame l1 off fl (c_tid c) F_UNFRAG T_DATA (rv off fl) body)]))
+          Ok (mkAppended (set_part l1 idx (term_put (part l1 idx) off [Committed (data_frame l1 off fl (c_tid c) F_UNFRAG T_DATA (rv off fl body) body)]))
                          (wrap32 resulting) None)
         else Crash
     | None => Crash
     end.
 
 (* TermAppender::append_fragmented_message_bulk (repaired) *)
-Definition ta_append_fragmented_bulk (m : mode) (rv : Z -> Z -> Z) (l : log) (idx : Z) (bufs : list (list Z)) (len mpl : Z)
+Definition ta_append_fragmented_bulk (m : mode) (rv : Z -> Z -> list Z -> Z) (l : log) (idx : Z) (bufs : list (list Z)) (len mpl : Z)
                                      (active_term_id : Z) : outcome appended :=
   required <- frag_required m len mpl ;;
   c <- tail_claim l idx required active_term_id ;;
